@@ -67,6 +67,12 @@ def run(ck):
         'CPython: dict iteration = insertion order; set iteration order is arbitrary but fixed for one set object in one state',
     ])
     ck.note('hash seeds used: 0, 1, 2, %d, %d' % info['seeds'])
+    if info['infrastructure']:
+        # a worker interpreter died / timed out: not a statement about the property
+        kind, label, err = info['infrastructure'][0]
+        ck.note('%d worker interpreters failed (first: %s: %s)' % (len(info['infrastructure']), label, err[-300:]))
+        if not ck.violations:
+            raise RuntimeError('determinism worker failed (%s): %s' % (label, err[-800:]))
     ck.note('testing part: a byte difference needs the interpreter to actually pick two different orders; sets of '
             'objects hashed by address are perturbed by junk allocation, an unrelated compile and other backend runs, '
             'not exhaustively')
